@@ -89,9 +89,19 @@ def timing(ctx, kind=None):
 def loop_scenario(ctx, n, dd, ad, cc=None, kind=None):
     rng = ctx.rng
     f, r, t0 = timing(ctx, kind)
-    return {"part": "loop", "cc": cc or rng.choice(["reno", "cubic"]), "n": n, "dd": sorted(dd), "ad": sorted(ad),
-            "fwd": f, "rev": r, "rtt0": t0, "start": rng.choice([[0, 1], [0, 1], [1, 2], [3, 1]]),
-            "fid": rng.choice([0, 1, 5]), "until": 1000000}
+    sc = {"part": "loop", "cc": cc or rng.choice(["reno", "cubic"]), "n": n, "dd": sorted(dd), "ad": sorted(ad),
+          "fwd": f, "rev": r, "rtt0": t0, "start": rng.choice([[0, 1], [0, 1], [1, 2], [3, 1]]),
+          "fid": rng.choice([0, 1, 5]), "until": 1000000}
+    x = rng.random()
+    if x < 0.12:
+        sc["path"] = "direct"        # gen.out = sink; sink.out = gen: every hand-over happens inside the other side's call
+    elif x < 0.30:
+        sc["path"] = "jitter"        # every packet has its own delay: data and ACKs overtake each other
+        sc["fj"] = [rng.choice(LAT + TINY) for _ in range(rng.randint(2, 7))]
+        sc["rj"] = [rng.choice(LAT + TINY) for _ in range(rng.randint(2, 7))]
+    if rng.random() < 0.1:
+        sc["finish"] = "none"
+    return sc
 
 
 def patterns(maxidx, maxd, maxa):
@@ -210,6 +220,15 @@ def model_check(ctx):
            timeout=1500)
     ctx.mc("TcpLoopMC", timely, "tcp", required_actions=("EnvSend", "EnvRecv", "EnvAck"),
            label="TcpLoopMC/timely(NoSpuriousRetx)", workers=WORKERS, timeout=600)
+    # paths that reorder data and acknowledgements (an old ACK overtaken by a newer one never moves the mark back)
+    reorder = sub(open(tlc.SPEC + "/tcp/TcpLoopMC_safe.cfg").read(), Fifos="{0}").replace("CONSTRAINT Emit\n", "")
+    if big:
+        reorder = sub(reorder, Win=3)
+    ctx.mc("TcpLoopMC", reorder, "tcp", required_actions=LOOP_ACTS, label="TcpLoopMC/safe, reordering paths", workers=WORKERS,
+           timeout=1500)
+    if big:
+        ctx.mc("TcpLoopMC", sub(live, Fifos="{0}"), "tcp", required_actions=LOOP_ACTS, label="TcpLoopMC/live(Delivers), reordering paths",
+               workers=WORKERS, timeout=1500)
     # NoCrash is not vacuous: with the ACK handling of finding F14 TLC itself finds the history that raises
     rd = tlc.run("TcpLoopMC", "TcpLoopMC_dev.cfg", tlc.SPEC + "/tcp", workers=min(WORKERS, 4), timeout=600, coverage=False)
     if rd.violated != "NoCrash":
